@@ -143,6 +143,8 @@ def run(c):
                                                                             "goroutine" in re_, re_.count(o["target"]) > 1))
             if o.get("parallel_runs"):
                 c.coverage["runs_in_progress_at_the_same_time"] = c.coverage.get("runs_in_progress_at_the_same_time", 0) + o["parallel_runs"]
+            if o.get("theme") == "imports" and o.get("engine"):
+                c.coverage["sets_with_leaf_rules_matching_inside_import_declarations"] = c.coverage.get("sets_with_leaf_rules_matching_inside_import_declarations", 0) + 1
             if o.get("last_lean"):
                 c.coverage["histories_whose_last_load_adds_no_syntax_rule"] = c.coverage.get("histories_whose_last_load_adds_no_syntax_rule", 0) + 1
             if sum(o.get("parts") or []):
@@ -164,6 +166,9 @@ def run(c):
         if not c.coverage.get("histories_whose_rejected_rules_match_the_target") or not c.coverage.get("runs_started_from_report_callbacks"):
             c.obligation("harness-run:rules-rejected-loads-and-reentrancy", False, "no history with a rejected Load whose rules match the target / no run "
                          "started from a Report callback: %s" % {k: v for k, v in c.coverage.items() if "rejected" in k or "callbacks" in k})
+        if c.coverage.get("sets_with_leaf_rules_matching_inside_import_declarations", 0) < 4:
+            c.obligation("harness-run:rules-import-leaf-sets", False, "the targeted sets of identifier / literal rules over the import declarations "
+                         "(with and without declaration-rooted rules next to them) did not all run and report")
         c.coverage["rule_sets_run"] = c.coverage.get("rule_sets_run", 0) + len(sets)
         # K: the Coq model of load + dispatch on the oracle's matcher table vs. the engine's reports
         if not inst_ok:
